@@ -237,6 +237,21 @@ func TestWorker(t *testing.T) {
 		seed := envInt("VERIF_SEED_BASE", 1)
 		emit(line{Kind: "gen", Seed: seed, Case: p.Gen(seed, tier)})
 
+	case "strip":
+		b, err := os.ReadFile(os.Getenv("VERIF_CASE"))
+		if err != nil {
+			os.Exit(2)
+		}
+		var c harness.Case
+		if json.Unmarshal(b, &c) != nil {
+			os.Exit(2)
+		}
+		if ks, ok := p.(harness.KnownStripper); ok {
+			if sc, found := ks.StripKnown(&c); found {
+				emit(line{Kind: "gen", Seed: c.Seed, Case: sc})
+			}
+		}
+
 	case "replay", "minimise":
 		b, err := os.ReadFile(os.Getenv("VERIF_CASE"))
 		if err != nil {
